@@ -587,7 +587,8 @@ class Engine:
     def opaque_call(self, it, fi, args, kwargs):
         st = it.st
         fn = self.fn_const(fi.qual)
-        self.emit_event(it, st, fn, args, kwargs)
+        ev0 = self.emit_event(it, st, fn, args, kwargs)
+        self.run_callout_checks(it, st, ev0)
         for c in self.unit.of('opaque_raises'):
             if ast.literal_eval(c.args[0]) == fi.qual:
                 excs = [ast.literal_eval(a) for a in c.args[1:]]
@@ -844,6 +845,38 @@ class Engine:
             return VNone()
         return a
 
+    def run_callout_checks(self, it, st, ev):
+        """call-out assertions of the unit: evaluated in the state at the moment control leaves the code under verification"""
+        u = self.unit
+        checks = u.of('callout_check')
+        if not checks:
+            return
+        env = {}
+        for fr in st.frames:
+            env.update({k_: v_ for k_, v_ in fr.locals.items() if v_ is not None})
+        # the parameters of the function under contract keep their meaning inside inlined callees (self is the unit's self)
+        for k_ in self.unit.param_names:
+            if k_ in st.frames[0].locals and st.frames[0].locals[k_] is not None:
+                env[k_] = st.frames[0].locals[k_]
+        st.frames.append(self.spec_frame(st, env))
+        st.frames[-1].locals['ev'] = ev
+        st.spec += 1
+        try:
+            for c in checks:
+                if 'within' in c.kw:
+                    w = ast.literal_eval(c.kw['within'])
+                    if not any(fr.func is not None and fr.func.qual == w for fr in st.frames[:-1]):
+                        continue
+                label = ast.literal_eval(c.args[0])
+                props = ast.literal_eval(c.kw['props']) if 'props' in c.kw else None
+                for e in c.args[1:]:
+                    g = it.gtruth(e)
+                    self.flush_side(st, label)
+                    st.oblige(label, 'callout', g, props=props)
+        finally:
+            st.spec -= 1
+            st.frames.pop()
+
     def event_seq(self, st, slot, pos):
         """the list argument `slot` of the event at `pos` as a functional sequence"""
         H = st.cur_heap()
@@ -864,30 +897,7 @@ class Engine:
             self.result.assumptions.add('callables declared pure (address predicates, seed/key algorithms) are deterministic functions of their arguments and have no effect on the stack')
             return self.pure_app(it, f, args)
         ev = self.emit_event(it, st, f.t, args, kwargs)
-        # call-out assertions of the unit
-        checks = u.of('callout_check')
-        if checks:
-            env = {}
-            for fr in st.frames:
-                env.update({k_: v_ for k_, v_ in fr.locals.items() if v_ is not None})
-            st.frames.append(self.spec_frame(st, env))
-            st.frames[-1].locals['ev'] = ev
-            st.spec += 1
-            try:
-                for c in checks:
-                    if 'within' in c.kw:
-                        w = ast.literal_eval(c.kw['within'])
-                        if not any(fr.func is not None and fr.func.qual == w for fr in st.frames[:-1]):
-                            continue
-                    label = ast.literal_eval(c.args[0])
-                    props = ast.literal_eval(c.kw['props']) if 'props' in c.kw else None
-                    for e in c.args[1:]:
-                        g = it.gtruth(e)
-                        self.flush_side(st, label)
-                        st.oblige(label, 'callout', g, props=props)
-            finally:
-                st.spec -= 1
-                st.frames.pop()
+        self.run_callout_checks(it, st, ev)
         eff = [ast.literal_eval(c.args[0]) for c in u.of('effects')]
         if eff and eff[0] == 'everything':
             self.havoc_everything(st)
@@ -941,9 +951,13 @@ class Engine:
     def pure_app(self, it, f, args):
         ts = []
         for a in args:
-            a = it.concretize(a)
+            a = it.concretize(a, (VInt, VBool)) if it.st.spec else it.concretize(a)
             if isinstance(a, (VInt, VBool)):
                 ts.append(self.ar.to_index(it.to_int(a)))
+            elif it.st.spec and isinstance(a, VNone):
+                # undefined application in a specification: definedness guard false (the enclosing connective decides)
+                it.st.defined.append(z3.BoolVal(False))
+                ts.append(z3.IntVal(0))
             else:
                 raise Unsupported('pure callable with non-int argument')
         fn = self.ufun('app%d' % len(ts), len(ts) + 1)
